@@ -26,6 +26,9 @@ def sym_bytes(ctx, n, p="x"):
     return bytes(items) if ctx.native else SBytes(items)
 
 
+_building_for_c16 = False
+
+
 def units(tier):
     CF.WMAX = 64
     U = []
@@ -233,12 +236,12 @@ def more_units(unit, tier):
     CUSE = USE
     # ------------------------------------------------------------ LUBA
     for vname, twice, rc in FLAG_VARIANTS:
-      for bits in (16, 24):
+      for bits, prior in [(b, p) for b in (16, 24) for p in (None, 16, 24)]:
         class cls:      # what the unit needs to know about the command
             sendtwice = twice
             __name__ = "%s-%d" % (vname, bits)
 
-        def r_luba(ctx, interp, fn, cls=cls, bits=bits, twice=twice, rc=rc):
+        def r_luba(ctx, interp, fn, cls=cls, bits=bits, twice=twice, rc=rc, prior=prior):
             world = World(ctx, interp)
             install(interp, world)
             cmd, fr = abstract_command(ctx, bits, twice, rc)
@@ -247,6 +250,11 @@ def more_units(unit, tier):
                 q.items.append(LUBA.LubaMsgTxConf(tx_id=ctx.fresh_int("txid", 0, 255), message=None))
             proto = ctx.new(LUBA, rx_idle=world.event(True, "rx_idle"), _tx_lock=world.lock("tx"),
                             transport=world.transport(), _queue_tx_conf=world.queue("tx_conf", provider=confirmations))
+            if prior:
+                # the packet of a command depends on that command only: whatever was sent before on this connection
+                cmd0, _ = abstract_command(ctx, prior, ctx.bool("prior_twice"), None, p="g")
+                world.run(LUBA.send_dali_command, proto, cmd0)
+                del world.writes[:]
             out = world.run(LUBA.send_dali_command, proto, cmd)
             ctx.cover()
             ctx.prove("exactly-one-frame-written", len(world.writes) == 1)
@@ -259,7 +267,7 @@ def more_units(unit, tier):
                     ctx.prove("frame-follows-the-luba-format",
                               bytes_equal(data, GW.luba_add_dali_frame(bits, fr._data, bool(cls.sendtwice), prio)),
                               detail=cls.__name__)
-        unit("luba/send_dali_command/%s-%d" % (vname, bits), r_luba, use=CUSE)
+        unit("luba/send_dali_command/%s-%d%s" % (vname, bits, "/after-a-%d-bit-send" % prior if prior else ""), r_luba, use=CUSE)
 
     for name in ("DAPC", "Off", "Reset", "QueryActualLevel"):
         def r_luba_real(ctx, interp, fn, name=name):
@@ -331,11 +339,11 @@ def more_units(unit, tier):
 
     # ------------------------------------------------------------ SCI
     for vname, twice, rc in FLAG_VARIANTS:
-      for bits in (16, 24):
+      for bits, prior in [(b, p) for b in (16, 24) for p in (None, 16, 24)]:
         class cls:
             sendtwice = twice
 
-        def r_sci(ctx, interp, fn, cls=cls, bits=bits, twice=twice, rc=rc):
+        def r_sci(ctx, interp, fn, cls=cls, bits=bits, twice=twice, rc=rc, prior=prior):
             world = World(ctx, interp)
             install(interp, world)
             cmd, fr = abstract_command(ctx, bits, twice, rc)
@@ -346,6 +354,10 @@ def more_units(unit, tier):
                 q.items.append(SER.DriverSCIRS232.SCIRS232DeviceReply(id=ctx.fresh_int("id", 0, 15), code=0))
             proto = ctx.new(SCI, rx_idle=world.event(True, "rx_idle"), _tx_lock=world.lock("tx"), transport=world.transport(),
                             _queue_rx_info=world.queue("info", provider=confirmations), _device_settings=settings)
+            if prior:
+                cmd0, _ = abstract_command(ctx, prior, ctx.bool("prior_twice"), None, p="g")
+                world.run(SCI.send_dali_command, proto, cmd0)
+                del world.writes[:]
             out = world.run(SCI.send_dali_command, proto, cmd)
             ctx.cover()
             ctx.prove("exactly-one-frame-written", len(world.writes) == 1)
@@ -363,7 +375,7 @@ def more_units(unit, tier):
                     # alignment of a 16-bit frame inside the three data bytes could not be confirmed offline
                     ctx.prove("data-bytes-carry-the-frame-in-order",
                               Or(And([data[1 + i] == left[i] for i in range(3)]), And([data[1 + i] == right[i] for i in range(3)])))
-        unit("sci/send_dali_command/%s-%d" % (vname, bits), r_sci, use=CUSE)
+        unit("sci/send_dali_command/%s-%d%s" % (vname, bits, "/after-a-%d-bit-send" % prior if prior else ""), r_sci, use=CUSE)
 
     def r_sci_checksum(ctx, interp, fn):
         items = [ctx.int("b%d" % i, 0, 255) for i in range(4)] + [None]
@@ -375,6 +387,15 @@ def more_units(unit, tier):
 
     # ------------------------------------------------------------ serial gateways: what a reported backward frame / silence
     # decodes to in send() (shared with C16)
+    if not _building_for_c16:
+        import checks.c16 as C16
+        C16._building_for_c18 = True
+        try:
+            for u16 in C16.units(tier):
+                if u16.name.startswith(("C16/tridonic/_send_raw/", "C16/hasseb/_send_raw/", "C16/tridonic/_handle_read-routing")):
+                    unit("receive/" + u16.name[len("C16/"):], u16.runner, use=u16.use)
+        finally:
+            C16._building_for_c18 = False
     from checks.c16 import serial_send_units
     for su in serial_send_units("C18"):
         if "/stale=0" in su.name:
